@@ -403,6 +403,13 @@ func (g *localfsEngine) localfsDefine(c localfsContent) string {
 		return id
 	} else if ok && c.Len-b.Len <= 1<<16 {
 		g.trace.Line("def %s app %s %s", id, b.id(), localfsHexP(c.bytes()[b.Len:]))
+	} else if c.Len > 1<<15 {
+		// long contents go in chunks (the driver reads line by line)
+		b := c.bytes()
+		for i := 0; i < len(b); i += 1 << 15 {
+			g.trace.Line("defc %s", hex.EncodeToString(b[i:min(i+1<<15, len(b))]))
+		}
+		g.trace.Line("def %s cat", id)
 	} else {
 		g.trace.Line("def %s hex %s", id, localfsHexP(c.bytes()))
 	}
@@ -765,7 +772,7 @@ func localfsFamilyTrace(r *Rand, tier string) []*localfsCase {
 			c := &localfsCase{Mode: "ops", Name: fmt.Sprintf("trace/depth%d-%s", depth, ds), Dir: "root",
 				Prep: []localfsPrep{{Kind: "mkdir", Path: "root"}}}
 			sizes := append([]int{}, localfsSizes...)
-			if (depth == 0 || depth == 3) && ds != "partial" {
+			if (depth == 0 && ds == "existing") || (tier == "thorough" && depth == 3 && ds != "partial") {
 				sizes = append(sizes, localfsBig)
 			}
 			for si, n := range sizes {
@@ -853,22 +860,23 @@ func localfsFamilyImm(r *Rand, tier string) []*localfsCase {
 		up(base, "ok")
 		c.Ops = append(c.Ops, localfsOp{Op: "fetch", Key: kh})
 		up(base, "ok") // same
+		lean := n == localfsBig && tier != "thorough" // multi-megabyte contents: the essential variants only
 		if n > 0 {
 			up(localfsContent{Seed: seed, Len: n, Flip: n - 1}, "fail-unchanged") // different in the last byte
-			up(localfsContent{Seed: seed, Len: n, Flip: 0}, "fail-unchanged")     // different in the first byte
-			if n > 16384 {
+			if !lean {
+				up(localfsContent{Seed: seed, Len: n, Flip: 0}, "fail-unchanged") // different in the first byte
+			}
+			if n > 16384 && !lean {
 				up(localfsContent{Seed: seed, Len: n, Flip: 16384}, "fail-unchanged") // first byte of the second chunk
 			}
 			up(localfsContent{Seed: seed, Len: n - 1, Flip: -1}, "fail-unchanged") // shorter (a prefix)
-			if tier == "thorough" || n == 1 || n == 16384 {
+			if tier == "thorough" || n == 1 {
 				up(localfsContent{Seed: seed, Len: 0, Flip: -1}, "fail-unchanged") // empty over non-empty
 			}
 		}
 		up(localfsContent{Seed: seed, Len: n + 1, Flip: -1}, "fail-unchanged") // longer (an extension)
-		if n > 0 {
+		if n > 0 && !lean {
 			up(localfsContent{Seed: seed, Len: n + 16384, Flip: -1}, "fail-unchanged")
-		}
-		if n > 0 {
 			up(base, "ok") // still the same object
 		}
 		c.Ops = append(c.Ops, localfsOp{Op: "fetch", Key: kh})
